@@ -574,6 +574,10 @@ fn sched_steps(s: &InfSchedule, cap: usize) -> Vec<InfStep> {
 
 /// run steps (then tail) on all live streams in lock-step; returns (calls, terminal rc)
 fn lockstep_inflate(streams: &mut Vec<IStream>, ar: &Arenas, data: &[u8], sched: &InfSchedule, max_steps: Option<usize>, copy_at: Option<usize>, end_early: Option<(usize, usize)>, o: &mut Outcome, what: &str, seed: u64) -> (usize, c_int, bool) {
+    lockstep_inflate_dict(streams, ar, data, sched, max_steps, copy_at, end_early, o, what, seed, None)
+}
+
+fn lockstep_inflate_dict(streams: &mut Vec<IStream>, ar: &Arenas, data: &[u8], sched: &InfSchedule, max_steps: Option<usize>, copy_at: Option<usize>, end_early: Option<(usize, usize)>, o: &mut Outcome, what: &str, seed: u64, dict: Option<&[u8]>) -> (usize, c_int, bool) {
     let steps = sched_steps(sched, 400);
     let mut pos = 0usize;
     let mut n = 0usize;
@@ -637,6 +641,23 @@ fn lockstep_inflate(streams: &mut Vec<IStream>, ar: &Arenas, data: &[u8], sched:
         }
         pos += r0.din as usize;
         last_rc = r0.rc;
+        if r0.rc == Z_NEED_DICT {
+            if let Some(d) = dict {
+                // every stream asked for the dictionary: hand it to all of them, they must answer alike
+                let dp = ar.dict.put_right(&d[..d.len().min(ar.dict.cap)]);
+                let mut rcs = Vec::new();
+                for s in streams.iter_mut().filter(|s| s.alive) {
+                    rcs.push(unsafe { Rs::inflateSetDictionary(&mut *s.strm, dp, d.len().min(ar.dict.cap) as u32) });
+                }
+                if rcs.iter().any(|&r| r != rcs[0]) {
+                    o.fail(format!("{}/inflateSetDictionary-diverges", what), format!("{}: inflateSetDictionary after NEED_DICT at call {} answered {:?} on the twins", what, n, rcs.iter().map(|&r| rc_name(r)).collect::<Vec<_>>()));
+                    return (n, last_rc, midblock_at_copy);
+                }
+                if rcs[0] == Z_OK {
+                    continue;
+                }
+            }
+        }
         if !matches!(r0.rc, Z_OK | Z_BUF_ERROR) {
             break;
         }
@@ -735,6 +756,43 @@ pub fn inflate_reset_case(t: &mut Tape, ctx: &Ctx, o: &mut Outcome) {
     let stop1 = if t.bool() { Some(t.below(20)) } else { None };
     let how = t.below(4);
     let seed = t.u16() as u64;
+    // (decoded last, so older tapes keep their meaning) zlib streams with a preset dictionary as history and/or
+    // continuation: "a dictionary was supplied" is part of the state a reset must forget
+    let dmode = if how == 3 { 0 } else { t.below(5) };
+    let (mut s1, mut s2) = (s1, s2);
+    let mut mode_arg_override: Option<c_int> = None;
+    let mut dicts: (Option<Vec<u8>>, Option<Vec<u8>>) = (None, None);
+    if dmode != 0 {
+        let mut x = crate::tape::Xs::new(seed ^ 0xD1C7);
+        let mut mk = |x: &mut crate::tape::Xs| -> Option<(Vec<u8>, Vec<u8>, Vec<u8>)> {
+            let dl = 1 + x.below(600);
+            let dict: Vec<u8> = (0..dl).map(|_| b'a' + x.below(5) as u8).collect();
+            let n = 20 + x.below(6000);
+            let data: Vec<u8> = (0..n).map(|i| if i < dl && x.below(8) != 0 { dict[i] } else { b'a' + x.below(6) as u8 }).collect();
+            let cfg = DefCfg { level: 1 + x.below(9) as c_int, strategy: 0, wrap: Wrap::Zlib, wbits: 15, mem_level: 8 };
+            let bytes = deflate_oneshot::<Ng>(&cfg, &data, Some(&dict))?;
+            Some((bytes, data, dict))
+        };
+        // the continuation is a dictionary stream (dmode 2, 3, 4); the history too (dmode 1, 3) - with a plain
+        // inflateReset both use the same windowBits, so a dictionary history needs a zlib-capable continuation
+        if dmode >= 2 || how != 1 {
+            if let Some((b, d, dc)) = mk(&mut x) {
+                s2.bytes = b;
+                s2.out = d;
+                s2.wrap = Wrap::Zlib;
+                dicts.1 = Some(dc);
+                mode_arg_override = Some(if x.below(3) == 0 { 47 } else { 15 });
+            }
+        }
+        if dmode == 1 || dmode == 3 {
+            if let Some((b, d, dc)) = mk(&mut x) {
+                s1.bytes = b;
+                s1.out = d;
+                s1.wrap = Wrap::Zlib;
+                dicts.0 = Some(dc);
+            }
+        }
+    }
     ARENAS.with(|ar| {
         if how == 3 {
             // Inflate::reset(zlib_header) == Inflate::new(zlib_header, 15)
@@ -781,7 +839,7 @@ pub fn inflate_reset_case(t: &mut Tape, ctx: &Ctx, o: &mut Outcome) {
         let tr = Tracker::new(t.pick(&[0x00u8, 0xFF, 0xA5]));
         guard::register(&tr);
         // history stream: same windowBits argument as the continuation needs (reset keeps it), or another one for Reset2
-        let mut wb2 = mode.arg();
+        let mut wb2 = mode_arg_override.unwrap_or(mode.arg());
         if how != 1 && matches!(wb2, 0 | 32) {
             // windowBits 0 means "take the window from the zlib header": like zlib, the value taken from the
             // first stream's header then IS the stream's parameter, so a plain inflateReset is not comparable
@@ -789,6 +847,7 @@ pub fn inflate_reset_case(t: &mut Tape, ctx: &Ctx, o: &mut Outcome) {
             wb2 += 15;
         }
         let wb1 = if how == 1 && !mode1_same_family { t.pick(&[-15, 15, 31, 47, -9, 9]) } else { wb2 };
+        let wb1 = if dicts.0.is_some() && how == 1 { 15 } else { wb1 };
         let mut st = match i_init(wb1, &tr, "reset stream") {
             Some(s) => s,
             None => {
@@ -798,7 +857,7 @@ pub fn inflate_reset_case(t: &mut Tape, ctx: &Ctx, o: &mut Outcome) {
         };
         let mut only = vec![st];
         let mut scratch = Outcome::new();
-        let (n1, rc1, _) = lockstep_inflate(&mut only, ar, &s1.bytes, &sched1, stop1, None, None, &mut scratch, "history", seed);
+        let (n1, rc1, _) = lockstep_inflate_dict(&mut only, ar, &s1.bytes, &sched1, stop1, None, None, &mut scratch, "history", seed, dicts.0.as_deref());
         st = only.pop().unwrap();
         if std::env::var("VERIF_DEBUG").is_ok() {
             eprintln!("inflate reset: how {} wb1 {} wb2 {} hist {:?} {} bytes ({}) n1 {} rc1 {} sched1 {} | cont {:?} {} bytes ({})", how, wb1, wb2, s1.label, s1.bytes.len(), crate::json::hex_cut(&s1.bytes, 64), n1, rc1, sched1.describe(), s2.label, s2.bytes.len(), crate::json::hex_cut(&s2.bytes, 64));
@@ -823,14 +882,53 @@ pub fn inflate_reset_case(t: &mut Tape, ctx: &Ctx, o: &mut Outcome) {
             }
         };
         let mut both = vec![fresh, st];
-        let (n2, _, _) = lockstep_inflate(&mut both, ar, &s2.bytes, &sched2, None, None, None, o, rname, seed ^ 3);
+        // gzip header capture on both (a stale parser offset in the reused stream shows up in the captured fields)
+        struct Cap {
+            head: Box<gz_header>,
+            bufs: [Vec<u8>; 3],
+        }
+        let mut caps: Vec<Cap> = Vec::new();
+        let want_capture = seed & 1 == 0 && matches!(wb2, 24..=31 | 40..=47);
+        if want_capture {
+            let caplen = [0usize, 1, 16, 300, 70000][(seed as usize >> 1) % 5];
+            let mut rcs = Vec::new();
+            for s in both.iter_mut() {
+                let mut c = Cap { head: Box::new(gz_header::default()), bufs: [vec![0xC3u8; caplen + 1], vec![0xC3u8; caplen + 1], vec![0xC3u8; caplen + 1]] };
+                c.head.extra = c.bufs[0].as_mut_ptr();
+                c.head.extra_max = caplen as u32;
+                c.head.name = c.bufs[1].as_mut_ptr();
+                c.head.name_max = caplen as u32;
+                c.head.comment = c.bufs[2].as_mut_ptr();
+                c.head.comm_max = caplen as u32;
+                rcs.push(unsafe { Rs::inflateGetHeader(&mut *s.strm, &mut *c.head) });
+                caps.push(c);
+            }
+            if rcs[0] != rcs[1] {
+                o.fail(format!("{}/inflateGetHeader-diverges", rname), format!("{}: inflateGetHeader answered {} on the fresh stream and {} on the reset one", rname, rc_name(rcs[0]), rc_name(rcs[1])));
+            }
+        }
+        let (n2, _, _) = lockstep_inflate_dict(&mut both, ar, &s2.bytes, &sched2, None, None, None, o, rname, seed ^ 3, dicts.1.as_deref());
         i_end_all(&mut both);
+        if caps.len() == 2 && o.fail.is_none() {
+            let (a, b) = (&caps[0], &caps[1]);
+            let fixed = |h: &gz_header| (h.text, h.time, h.xflags, h.os, h.extra_len, h.hcrc, h.done, h.extra.is_null(), h.name.is_null(), h.comment.is_null());
+            if fixed(&a.head) != fixed(&b.head) || a.bufs != b.bufs {
+                o.fail(format!("{}/captured-header-diverges", rname), format!("{}: the gzip header captured by the reset stream differs from the one captured by a fresh stream: (text,time,xflags,os,extra_len,hcrc,done,null flags) {:?} vs {:?}; buffers equal: extra {} name {} comment {}", rname, fixed(&b.head), fixed(&a.head), a.bufs[0] == b.bufs[0], a.bufs[1] == b.bufs[1], a.bufs[2] == b.bufs[2]));
+            }
+            o.class("inflate reset twin with header capture");
+        }
         tracker_errors(&tr, o, rname);
         guard::unregister(&tr);
         if o.fail.is_some() {
             return;
         }
         o.class("inflate reset twin");
+        if dicts.0.is_some() {
+            o.class("inflate reset: history used a preset dictionary");
+        }
+        if dicts.1.is_some() {
+            o.class("inflate reset: continuation needs a preset dictionary");
+        }
         let after_error = rc1 == Z_DATA_ERROR;
         if after_error {
             o.class("reset after DATA_ERROR");
